@@ -720,7 +720,7 @@ def check(ctx, rep):
                     if s.func.cls is not None and s.func.cls.name == "VFS_Real":
                         continue  # the VFS layer itself; callers are the sites
                     n_w += 1
-                    ok = any(s.func.qualname == q for q, _ in allowed)
+                    ok = any(s.func.qualname == q for q, _ in allowed) or _only_from_cache_savers(prog, eff, s.func)
                     rep.add("R03d", f"{s.func.qualname}: {norm(s.call)[:60]}", ok, ctx.where(s.func, s.call),
                             "" if ok else f"{s.effect}: request handling leaves state behind that later responses may depend on",
                             key=f"R03d|{s.func.qualname}|{norm(s.call.func)}")
@@ -992,6 +992,30 @@ def pregate_flow_obligations(ctx, rep, rule, eff):
                     "): a selector that climbs out of the root is answered differently depending on what exists there" if problems else "",
                     key=f"{rule}|{m.qualname}|{name}")
 
+
+
+def _only_from_cache_savers(prog, eff, func, depth=0) -> bool:
+    """Is this function part of writing one of the two cache files: named savecache/save_cache itself, or only ever called
+    from such functions (a helper, a small cache-file class or module the writers delegate to)?"""
+    if func.name in ("savecache", "save_cache"):
+        return True
+    if depth > 3:
+        return False
+    cache = prog.__dict__.setdefault("_pgv_callers", None)
+    if cache is None:
+        cache = {}
+        for g in prog.all_functions():
+            if not g.module.name.startswith("pygopherd"):
+                continue
+            for call, t in eff.calls_of(g, g.cls):
+                if t.kind in ("repo", "ctor"):
+                    for f2 in t.funcs:
+                        if f2 is not None:
+                            cache.setdefault(f2, set()).add(g)
+        prog.__dict__["_pgv_callers"] = cache
+    callers = cache.get(func) or set()
+    callers = {g for g in callers if g is not func}
+    return bool(callers) and all(_only_from_cache_savers(prog, eff, g, depth + 1) for g in callers)
 
 
 def _status_line_evaluation(ctx, P, ws):
